@@ -384,6 +384,7 @@ type HarnessResult struct {
 	Violations   []FoundViolation
 	Reached      map[string]map[string]uint64
 	ReachedInst  map[string]string
+	ReachedArgs  map[string][]int64
 	Notes        map[string]int
 	GlobalWrites map[string]bool
 	Unsupported  map[string]int
@@ -543,7 +544,7 @@ func (g *Engine) RunHarness(h *Harness, opts RunOpts) *HarnessResult {
 		}
 		insts = keep
 	}
-	hr := &HarnessResult{H: h, Instances: len(insts), Reached: map[string]map[string]uint64{}, ReachedInst: map[string]string{},
+	hr := &HarnessResult{H: h, Instances: len(insts), Reached: map[string]map[string]uint64{}, ReachedInst: map[string]string{}, ReachedArgs: map[string][]int64{},
 		Notes: map[string]int{}, GlobalWrites: map[string]bool{}, Unsupported: map[string]int{}, Crashes: map[string]int{}, Ends: map[string]int{}}
 	var mu sync.Mutex
 	cond := sync.NewCond(&mu)
@@ -603,6 +604,7 @@ func (g *Engine) RunHarness(h *Harness, opts RunOpts) *HarnessResult {
 					if _, ok := hr.Reached[l]; !ok {
 						hr.Reached[l] = m
 						hr.ReachedInst[l] = insts[t.inst].String()
+						hr.ReachedArgs[l] = insts[t.inst].Args
 					}
 				}
 				for k, n := range res.notes {
